@@ -95,9 +95,16 @@ W10 == { <<LBoot, PRet(0, "bootcap", 9, 0 - 1), LCallWC("boot", 101)>> \o hold \
            hold \in { <<>>, <<Hold("finish", 0 - 1)>> },
            y \in { <<>>, <<LCallWC("boot", 102), PRetRel(2, "results", 102, TRUE)>>, <<LRel("boot")>> } }
 
+\* W11: as W5, but the new reference to the import whose Release is in flight arrives in a RETURN (the result of a second Bootstrap
+\* that was outstanding when the last local reference was dropped): the receive loop finds the dying table entry
+LBoot2 == [Act("l-bootstrap") EXCEPT !.h = "boot2", !.cap = 9]
+W11 == { <<LBoot, PRet(0, "bootcap", 9, 0 - 1), LBoot2, Hold("release", 0 - 1), LRel("boot"), PRet(1, "bootcap", 9, 0 - 1), Go>> \o y :
+           y \in { <<>>, <<LCall("boot2", 101), PRet(2, "results", 0 - 1, 101)>>, <<LRel("boot2")>>,
+                   <<LCall("boot2", 101), PRet(2, "results", 0 - 1, 101), LRel("boot2")>> } }
+
 VARIABLE done
 Init == done = FALSE
 Next == /\ ~done /\ done' = TRUE
-        /\ \A s \in W1 \cup W2 \cup W3 \cup W4 \cup W5 \cup W6 \cup W7 \cup W8 \cup W9 \cup W10 : PrintT(<<"SCRIPT", ToJson(s)>>)
+        /\ \A s \in W1 \cup W2 \cup W3 \cup W4 \cup W5 \cup W6 \cup W7 \cup W8 \cup W9 \cup W10 \cup W11 : PrintT(<<"SCRIPT", ToJson(s)>>)
 Spec == Init /\ [][Next]_done
 =============================================================================
